@@ -14,7 +14,7 @@ fn c11_now() {
         set.forbid(&builtin_permissions::NOW);
     }
     let rt: RtRec = runtime_rec(RuntimeLimits { permissions: set, ..Default::default() });
-    let ns = empty_scope(&rt);
+    let ns = crate::runtime_scope::verif_kani::bare_scope();
     let args: Vec<crate::xexpr::XExpr<RecW, RecR, RecT>> = vec![];
     let r = nc(&args, &ns, false, rt.clone());
     let (w, c, g) = effects();
